@@ -91,6 +91,17 @@ func (d *Ar) Next() (*ArEntry, error) {
 		return nil, err
 	}
 
+	if entry.Size < 0 {
+		return nil, fmt.Errorf("Malformed file entry: negative size")
+	}
+	if entry.Size > 0 {
+		/* The member's data has to be there in full. */
+		last := make([]byte, 1)
+		if n, _ := d.in.ReadAt(last, d.offset+int64(count)+entry.Size-1); n != 1 {
+			return nil, fmt.Errorf("Caught a short read in the data of %s", entry.Name)
+		}
+	}
+
 	entry.Data = io.NewSectionReader(d.in, d.offset+int64(count), entry.Size)
 	d.offset += int64(count) + entry.Size + (entry.Size % 2)
 
